@@ -23,6 +23,7 @@ ASSUMPTIONS = [
 UNIT_TIMEOUT = {"quick": 150, "thorough": 2400}
 
 BASE = gen.profile(
+    struct_depth_choices=[1, 2, 2, 3, 4],
     max_nodes=7,
     max_stmts=3,
     max_width=3,
@@ -39,7 +40,7 @@ HOWS = ["call", "value", "yielded", "yielded_value"]
 
 
 def plan(tier, seed, build, scale):
-    n = int((96 if tier == "quick" else 1200) * scale)
+    n = int((64 if tier == "quick" else 1000) * scale)
     per = max(1, n // 16) if tier == "quick" else max(1, n // 48)
     units = []
     a = 0
